@@ -60,6 +60,9 @@ static void c_snw_nospc_big(Res *res) { prep(); int r = snwprintf_p(wd, 600, BOS
 static void c_norm_long(Res *res) { prep(); size_t len = 0; int r = wcsnorm_p(wd, 400, longsrc, 1, &len, BOSU); res->rc = r; res->failind = r != 0; res->has_dest = 1; res->dest_cleared = wd[0] == 0; }
 static void c_norm_marks(Res *res) { prep(); size_t len = 0; int r = wcsnorm_p(wd, 100, marks, 1, &len, BOSU); res->rc = r; res->failind = r != 0; res->has_dest = 1; res->dest_cleared = wd[0] == 0; }
 static void c_norm_marks2(Res *res) { prep(); size_t len = 0; int r = wcsnorm_p(wd, 100, marks2, 0, &len, BOSU); res->rc = r; res->failind = r != 0; res->has_dest = 1; res->dest_cleared = wd[0] == 0; }
+static void c_norm_marks_nolen(Res *res) { prep(); int r = wcsnorm_p(wd, 100, marks, 1, NULL, BOSU); res->rc = r; res->failind = r != 0; res->has_dest = 1; res->dest_cleared = wd[0] == 0; }
+static void c_norm_marks2_nolen(Res *res) { prep(); int r = wcsnorm_p(wd, 100, marks2, 0, NULL, BOSU); res->rc = r; res->failind = r != 0; res->has_dest = 1; res->dest_cleared = wd[0] == 0; }
+static void c_norm_long_nolen(Res *res) { prep(); int r = wcsnorm_p(wd, 400, longsrc, 1, NULL, BOSU); res->rc = r; res->failind = r != 0; res->has_dest = 1; res->dest_cleared = wd[0] == 0; }
 static void c_icmp(Res *res) { int d = 99; int r = wcsicmp_p(L"Hello World", 12, L"hello world", 12, &d, BOSU, BOSU); res->rc = r; res->failind = r != 0; res->has_dest = 1; res->dest_cleared = (r != 0) ? d == 0 || d == 99 : 1; }
 static void c_natcmp(Res *res) { int d = 99; int r = wcsnatcmp_p(L"File10 Name", 12, L"file9 name", 12, 1, &d, BOSU, BOSU); res->rc = r; res->failind = r != 0; res->has_dest = 0; res->dest_cleared = 1; }
 static void c_fprintf_ls(Res *res) { char *mb = NULL; size_t ml = 0; tracking = 0; FILE *f = open_memstream(&mb, &ml); tracking = 1; int r = fprintf_p(f, "[%ls|%Lf]", L"stream", (long double)1.5); tracking = 0; fclose(f); __libc_free(mb); tracking = 1; res->rc = r; res->failind = r < 0; res->has_dest = 0; res->dest_cleared = 1; }
@@ -67,7 +70,7 @@ static void c_fprintf_ls(Res *res) { char *mb = NULL; size_t ml = 0; tracking = 
 static struct { const char *name; void (*fn)(Res *); } cases[] = {
     { "sprintf_ls", c_ls }, { "sprintf_ls_unconvertible", c_ls_bad }, { "sprintf_ls2", c_ls2 }, { "snprintf_ls_trunc", c_ls_trunc }, { "sprintf_Lf", c_Lf }, { "sprintf_Le", c_Le },
     { "sprintf_La", c_La }, { "sprintf_a", c_a }, { "sprintf_Lf_ls_a", c_Lf_ls }, { "sprintf_Lf_wide_field", c_Lf_wide }, { "swprintf_nospc", c_sw_nospc }, { "swprintf_nospc_big", c_sw_nospc_big },
-    { "snwprintf_nospc_big", c_snw_nospc_big }, { "wcsnorm_long", c_norm_long }, { "wcsnorm_marks_nfc", c_norm_marks }, { "wcsnorm_marks_nfd", c_norm_marks2 },
+    { "snwprintf_nospc_big", c_snw_nospc_big }, { "wcsnorm_long", c_norm_long }, { "wcsnorm_marks_nfc", c_norm_marks }, { "wcsnorm_marks_nfd", c_norm_marks2 }, { "wcsnorm_marks_nfc_lenp_null", c_norm_marks_nolen }, { "wcsnorm_marks_nfd_lenp_null", c_norm_marks2_nolen }, { "wcsnorm_long_lenp_null", c_norm_long_nolen },
     { "wcsicmp", c_icmp }, { "wcsnatcmp_fold", c_natcmp }, { "fprintf_ls_Lf", c_fprintf_ls },
 };
 #define NC ((int)(sizeof cases / sizeof cases[0]))
